@@ -4,12 +4,13 @@ EXPLANATION = ("Contracts on the share-or-copy decision: the Generation algebra 
                "test on a real one-object heap.")
 TRUSTED = []
 ASSUMPTIONS = [
+    "thread tree axiom (env.rs axiom_thread_tree): a child thread is one level deeper, one generation younger and shares the global state of its parent -- Thread::new_thread itself is not verified (new_child_gc's generation step is)",
     "clone unit: deep_clone_str/data/closure/app, deep_clone_ptr (visited map) and the element loop deep_clone_elems, gc.alloc(Move(ExternFunction::clone)) and Userdata::deep_clone are ASSUMED to return new objects of the receiving heap (fresh); the visited map is opaque",
     "Gc::get_type_info replaced by a non-interning stub in the coherence harness (hash maps are intractable for CBMC)",
     "termination is not proved by Kani",
 ]
 NOT_UNDER_CONTRACT = [
-    "Thread::can_share_values_with (parent-chain walk)", "Cloner visited map (sharing/cycles)",
+    "Cloner visited map (sharing/cycles: deep_clone_ptr)", "deep_clone_data/closure/app/str bodies (assumed fresh)",
     "structural equality of copies", "lifetime after the sender is dropped",
 ]
 
@@ -38,6 +39,12 @@ def obligations(tier):
         v("Cloner::force_full_clone", "afterwards the share policy generation is below every real generation", "vm/src/value.rs::Cloner::force_full_clone"),
         v("Cloner::deep_clone_inner", "a pointer is returned uncopied only if receiver_generation can contain its generation; otherwise the result is a new object of the receiving heap; scalars by value; policy unchanged", "vm/src/value.rs::Cloner::deep_clone_inner"),
         v("Cloner::deep_clone_array", "the copy of an array is a new object of the receiving heap and every pointer-carrying element representation (String, Array, Unknown, Userdata) has its elements cloned; Thread arrays are refused", "vm/src/value.rs::Cloner::deep_clone_array"),
+        v("Gc::new_child_gc", "a child collector is exactly one generation younger than its parent's", "vm/src/gc.rs::Gc::new_child_gc"),
+        v("Cloner::new", "a cloner's share policy starts as the generation of the receiving collector", "vm/src/value.rs::Cloner::new"),
+        v("Cloner::deep_clone", "same guarantee as deep_clone_inner for the rooted result", "vm/src/value.rs::Cloner::deep_clone"),
+        v("Thread::can_share_values_with", "true exactly for the same thread or an ancestor/descendant within one VM (parent-chain walk, unbounded depth)", "vm/src/thread.rs::Thread::can_share_values_with"),
+        v("Thread::deep_clone_value", "into an unrelated thread everything is copied; within one ancestor chain a pointer is shared only if it lives in the receiver's own heap or an ancestor's", "vm/src/thread.rs::Thread::deep_clone_value"),
+        v("lemma_ancestor_is_older", "an ancestor thread's generation is strictly smaller (induction over the parent chain)", "lemma over the thread-tree axiom"),
         dict(engine="verus", unit="reference", function="Reference::deep_clone", name="C13/reference/Reference_deep_clone", source="vm/src/reference.rs::<Reference as Userdata>::deep_clone",
              clause="a reference crossing heaps becomes a reference owned by the RECEIVING thread holding a copy of the content"),
         v("lemma_full_clone_copies_everything", "after force_full_clone no value of a real heap is ever shared (over the two contracts)", "lemma"),
